@@ -12,6 +12,15 @@ def main():
             print('replay: %s has no native replay; re-run ./check %s (obligation %s)' % (pid, pid, d.get('obligation')))
             print(json.dumps(d, indent=1)[:3000])
             sys.exit(0)
+        fi = d.get('failing_input') or {}
+        if isinstance(fi, dict) and fi.get('history_input'):
+            # a two-call history: the earlier call first (same process, so written module state carries over)
+            d0 = json.loads(json.dumps(d))
+            d0['failing_input'] = dict(input=fi['history_input'])
+            try:
+                mod.replay(d0)
+            except Exception:
+                pass
         r = mod.replay(d)
     except SystemExit:
         raise
